@@ -7,6 +7,7 @@ import (
 	"os"
 	"os/exec"
 	"path/filepath"
+	"regexp"
 	"sort"
 	"strings"
 	"time"
@@ -511,10 +512,10 @@ func runNative(repo, verif, pkg, fn, vector string) (string, error) {
 			if ns == src {
 				continue
 			}
-			if !strings.Contains(ns, "time.") {
+			if !regexp.MustCompile(`\btime\.[A-Z]`).MatchString(ns) {
 				ns = strings.Replace(ns, "\t\"time\"\n", "", 1)
 			}
-			if !strings.Contains(ns, "sync.") {
+			if !regexp.MustCompile(`\bsync\.[A-Z]`).MatchString(ns) {
 				ns = strings.Replace(ns, "\t\"sync\"\n", "", 1)
 				ns = strings.Replace(ns, "\n\t\"sync\"\n", "\n", 1)
 			}
